@@ -184,7 +184,8 @@ CHECKS = {
     "C13": dict(
         text="Lean 4 theorems: frame_fit_history_free (a fit whose summary reads no fitted attribute before writing it and certainly writes what it may write equals "
         "a fit on a fresh object and preserves get_params), public_calls_preserve_params, window_is_last_w_partial (SlidingWindowClassifier equals a fit on exactly the "
-        "last window_size samples, with the counterexample for the recorded non-atomic error path). 100 generated obligations over every public method of 32 "
+        "last window_size samples, with the counterexample for the recorded non-atomic error path), pureReader_preserves_object (every predict* / sample* method "
+        "writes and mutates nothing of self). 132 generated obligations over every public method of 32 "
         "estimator / manager / stream classes. Dynamic tie: refit-vs-fresh-clone on different data, get_params and caller dicts before/after every public call in "
         "random call sequences, window op sequences against the Lean window model.",
         design="Part I §I.2, Part II §4 C13",
@@ -196,7 +197,8 @@ CHECKS = {
         text="Lean 4 theorems over programs with two random sources (own, global): no_global_independent (no draw site or unseeded constructor uses the global source "
         "=> the result is independent of the global generator), run_det, pool_repeat_equal, crs_private / crs_deterministic / repeat_all_equal (check_random_state(seed, multiplier) modelled from the caller's side and compared with the real function). 121 generated obligations "
         "over the RNG draw-site tables of 64 classes. Dynamic tie: twin objects, repeated calls and three different np.random.seed states must agree for every class "
-        "x configuration, also with RandomState instances as random_state (caller's instance unchanged, repeat equal).",
+        "x configuration, also with RandomState instances as random_state (caller's instance unchanged, repeat equal) and for a used object vs a fresh one; query_history_free + 32 generated "
+        "query_<Class>_historyFree obligations (read-before-write analysis of the regenerated effect summaries of every pool query).",
         design="Part I §I.2, Part II §4 C06",
         technique="Lean 4 proof over an RNG-source abstraction + AST translation validated dynamically",
         note="Trusted: Lean kernel (axioms audited); RNG-site tables over-approximate the Python semantics (validated dynamically); third-party estimators are deterministic "
